@@ -34,4 +34,7 @@ SigLit == {T("int","1"), T("identifier","x")} \cup KWS({"for","in","if","also"})
 SigReq == {T("identifier","x"), T("string","s"), T("int","1")} \cup KWS({"require","as","is","not","in"})
           \cup IPS({"[","]",",",";"}) \cup IDS({"unqualified","import","numerical","min_len","date","with","hour",
           "starts","with","contains","matches","list"})
+\* block scaffolding: empty and degenerate blocks, functions, classes
+SigEmpty == {T("int","1"), T("identifier","x"), T("identifier","class"), T("identifier","all")}
+            \cup KWS({"fn","do","end","def","catch","finally","return","if","then","while"}) \cup OPS({"="}) \cup IPS({"(",")",";"})
 =============================================================================
